@@ -198,7 +198,9 @@ def _worker(args):
                    b.get("layout") if isinstance(b, dict) and b.get("layout") in bind.LAYOUTS else
                    bind.LAYOUTS[hashlib.md5(json.dumps(b, sort_keys=True).encode()).digest()[0] % len(bind.LAYOUTS)])
             dg = hashlib.md5(json.dumps(b, sort_keys=True).encode()).digest()
-            dt = (b.get("dtype") if isinstance(b, dict) and b.get("dtype") in ("float", "int") else ("float", "float", "int")[dg[1] % 3])
+            dt = (os.environ["VERIF_DTYPE"] if os.environ.get("VERIF_DTYPE") in bind.DTYPES else      # development aid
+                  b.get("dtype") if isinstance(b, dict) and b.get("dtype") in bind.DTYPES else
+                  ("float", "float", "float", "int", "int32", "int16")[dg[1] % 6])
             bind.set_layout(lay)
             bind.set_dtype(dt)
             r = fn(b)
@@ -298,7 +300,7 @@ def replay_file(path: str, prop: str, mod_name: str, trace_module: str,
     import bind
     if stim.get("layout") in bind.LAYOUTS:
         bind.set_layout(stim["layout"])
-    if stim.get("dtype") in ("float", "int"):
+    if stim.get("dtype") in bind.DTYPES:
         bind.set_dtype(stim["dtype"])
     tr = mod.record(stim)
     tv = tla.validate_traces(trace_module, [tr], constants=trace_constants)
